@@ -2,9 +2,9 @@
     [base#digits] (wrapping, [parse_shell_literal_number]), [0x…] ([i64::from_str_radix 16]),
     [0…] ([i64::from_str_radix 8]), decimal ([str::parse::<u64>] then [cast_signed]).
     The character classes, radix bounds and digit maps come from the regenerated table
-    ([lexcfg], filled by gen/ArithTable.v). A failing semantic action ([{? … }] returning [Err])
+    ([lexcfg], filled by gen/C07ArithTable.v). A failing semantic action ([{? … }] returning [Err])
     makes the PEG alternative fail, so the next alternative is tried. *)
-From BV Require Import Base.Prelude Base.Wrap64.
+From BV Require Import Base.Prelude Arith.Wrap64.
 
 Definition cclass := list (N * N).            (* inclusive code-point ranges *)
 Definition in_class (cls : cclass) (c : char) : bool :=
